@@ -269,6 +269,6 @@ PROPS["C20"] = dict(
 )
 
 # entries still under construction by a sub-agent are not claimed in MANIFEST.json yet
-for _hold in ["C04"]:
+for _hold in []:
     if _hold in PROPS:
         PROPS[_hold]["claimed"] = False
